@@ -233,6 +233,9 @@ type c11Exec struct {
 	inlMemo   map[*types.Func]int
 	maxSteps  int
 	owned     map[string]bool // root symbols of objects whose fields the store tracks
+	// fresh objects that stay private to the function (c11heap.go): allocation expression -> its root / not private
+	heapRoot map[ast.Expr]c11Path
+	heapNo   map[ast.Expr]bool
 }
 
 func c11NewExec(p *Program, info *types.Info, pkg *types.Package) *c11Exec {
@@ -792,6 +795,16 @@ func (x *c11Exec) evalVal(st *c11State, e ast.Expr) c11Val {
 			if r, ok := st.callRes[unparen(e).(*ast.CallExpr)]; ok && len(r) == 1 {
 				return r[0]
 			}
+			if !x.fields {
+				return c11Val{}
+			}
+		}
+		if x.fields {
+			if v, ok := x.freshObject(st, e); ok {
+				return v
+			}
+		}
+		if _, isCall := unparen(e).(*ast.CallExpr); isCall {
 			return c11Val{}
 		}
 		if p := x.resolvePath(st, unparen(e)); p.ok {
